@@ -8,6 +8,7 @@ displays etc. are left alone (evaluating them elsewhere could matter)."""
 from __future__ import annotations
 
 import ast
+import re
 
 from .core import copy_ast, dotted, func_params
 
@@ -395,6 +396,11 @@ def split_chained_assignments(fn) -> int:
     return n
 
 
+def _is_temp(name: str) -> bool:
+    """Names the inliner made up (parameters and locals of inlined helpers, collectors of inlined generators)."""
+    return re.search(r"__[ig]\d+$", name) is not None
+
+
 def coalesce_copies(fn) -> int:
     """In/out copies left by inlining a helper that rebinds its parameter and hands it back:
 
@@ -417,7 +423,24 @@ def coalesce_copies(fn) -> int:
                     if not (isinstance(st, ast.Assign) and len(st.targets) == 1 and isinstance(st.targets[0], ast.Name) and isinstance(st.value, ast.Name)):
                         continue
                     t, a = st.targets[0].id, st.value.id
-                    if t == a or t in params or "__i" not in t:
+                    # result copy:  t = E (or `t, u = E`) ; a = t   with t an inliner temporary read only here  ->  a = E
+                    if _is_temp(a) and a not in params and not _is_temp(t):
+                        tmp, dest = a, t
+                        occ = [n for n in own if isinstance(n, ast.Name) and n.id == tmp]
+                        stores = [n for n in occ if isinstance(n.ctx, ast.Store)]
+                        if len(stores) == 1:
+                            k0 = next((k for k in range(i) if any(n is stores[0] for n in ast.walk(blk[k]))), None)
+                            span = {id(n) for k in range(k0 if k0 is not None else i, i + 1) for n in ast.walk(blk[k])}
+                            if k0 is not None and isinstance(blk[k0], ast.Assign) and all(id(n) in span for n in occ) and not any(
+                                    isinstance(n, ast.Name) and n.id == dest and (k > k0 or isinstance(n.ctx, (ast.Store, ast.Del))) for k in range(k0, i) for n in ast.walk(blk[k])) \
+                                    and not any(isinstance(n, (ast.FunctionDef, ast.Lambda, ast.AsyncFunctionDef)) for k in range(k0, i) for n in ast.walk(blk[k])):
+                                for n in occ:
+                                    n.id = dest
+                                del blk[i]
+                                changed = True
+                                done += 1
+                                break
+                    if t == a or t in params or not _is_temp(t):
                         continue
                     j = next((k for k in range(i + 1, len(blk)) if isinstance(blk[k], ast.Assign) and len(blk[k].targets) == 1 and isinstance(blk[k].targets[0], ast.Name)
                               and blk[k].targets[0].id == a and isinstance(blk[k].value, ast.Name) and blk[k].value.id == t), None)
@@ -540,6 +563,73 @@ def merge_nested_ifs(fn) -> int:
             for child in ast.iter_child_nodes(x):
                 child._parent = x
     return n
+
+
+def forward_single_use_temps(fn) -> int:
+    """`t = E ; S(t)` -> `S(E)` for an inliner temporary t that is stored once and read once, in the statement that directly
+    follows, where nothing with an effect is evaluated in S before t (every call in S has t among its arguments and a plain
+    path as its callee)."""
+    n_done = 0
+    for _ in range(16):
+        changed = False
+        own = list(_own_nodes(fn))
+        counts = {}
+        for n in own:
+            if isinstance(n, ast.Name) and _is_temp(n.id):
+                counts.setdefault(n.id, []).append(n)
+        for blk_owner in [fn] + own:
+            for attr in ("body", "orelse", "finalbody"):
+                blk = getattr(blk_owner, attr, None)
+                if not isinstance(blk, list):
+                    continue
+                for i in range(len(blk) - 1):
+                    st, nxt = blk[i], blk[i + 1]
+                    if not (isinstance(st, ast.Assign) and len(st.targets) == 1 and isinstance(st.targets[0], ast.Name) and _is_temp(st.targets[0].id)):
+                        continue
+                    t = st.targets[0].id
+                    occ = counts.get(t, [])
+                    if len(occ) != 2 or not isinstance(nxt, (ast.Expr, ast.Assign, ast.Return, ast.AugAssign)):
+                        continue
+                    load = next((n for n in occ if isinstance(n.ctx, ast.Load)), None)
+                    if load is None or not any(load is x for x in ast.walk(nxt)):
+                        continue
+                    # ancestors of the load inside nxt
+                    chain = []
+                    x = load
+                    while x is not nxt and x is not None:
+                        chain.append(x)
+                        x = getattr(x, "_parent", None)
+                    if x is None or any(isinstance(c, (ast.Lambda, ast.ListComp, ast.SetComp, ast.DictComp, ast.GeneratorExp, ast.IfExp, ast.BoolOp)) for c in chain):
+                        continue
+                    ok = True
+                    for c in ast.walk(nxt):
+                        if isinstance(c, (ast.Call, ast.Await, ast.Yield, ast.YieldFrom, ast.NamedExpr)):
+                            if not (isinstance(c, ast.Call) and any(c is a for a in chain) and _is_path(c.func)):
+                                ok = False
+                    if not ok:
+                        continue
+                    par = load._parent
+                    for f, v in ast.iter_fields(par):
+                        if v is load:
+                            setattr(par, f, st.value)
+                        elif isinstance(v, list):
+                            for k, e in enumerate(v):
+                                if e is load:
+                                    v[k] = st.value
+                    del blk[i]
+                    changed = True
+                    n_done += 1
+                    break
+                if changed:
+                    break
+            if changed:
+                break
+        if not changed:
+            break
+        for node in ast.walk(fn):
+            for child in ast.iter_child_nodes(node):
+                child._parent = node
+    return n_done
 
 
 def _literal(v):
@@ -830,6 +920,7 @@ def run(prog) -> int:
                 changed += split_tuple_assignments(node)
                 changed += coalesce_copies(node)
                 changed += merge_nested_ifs(node)
+                changed += forward_single_use_temps(node)
                 changed += substitute_function(node)
                 if sink_attribute_targets(node):
                     changed += 1 + substitute_function(node)
